@@ -107,6 +107,13 @@ def c13_run(ctx):
     ctx.trace_validate("clientconn", "TestClientConnTrace", "TraceClientConn.tla", "TraceClientConn.cfg", n)
 
 
+def c05_run(ctx):
+    core_run(["MC_mtu"], ["GEN_mtu", "GEN_mtu1200", "GEN_relayA"])(ctx)
+    if not ctx.violations:
+        n = 24 if ctx.tier == "quick" else 300
+        ctx.trace_validate("relay", "TestRelayTrace", "TraceRelay.tla", "TraceRelay.cfg", n)
+
+
 def c14_run(ctx):
     ctx.model_check("KeepAlive.tla", "MC_keepaliveQ.cfg" if ctx.tier == "quick" else "MC_keepalive.cfg", None)
     n = 24 if ctx.tier == "quick" else 300
@@ -129,9 +136,11 @@ PROPS = {
                 run=core_run(["MC_iso", "MC_relay"], ["GEN_iso", "GEN_relayD", "GEN_v6", "GEN_tcpB"]),
                 assumptions=BASE_ASSUME),
     "C05": dict(title="payloads intact, exactly once, truthful attribution", level="model_checking",
-                run=core_run(["MC_mtu"], ["GEN_mtu", "GEN_mtu1200", "GEN_relayA"]),
-                assumptions=BASE_ASSUME + ["payload lengths are the boundary classes of the spec's Lens sets; contents are seeded "
-                                           "random, zeros, STUN-like and ChannelData-like; datagram transport only"]),
+                run=c05_run,
+                assumptions=BASE_ASSUME + ["server path (Engine A): payload lengths are the boundary classes of the spec's Lens sets; contents are seeded random, zeros, STUN-like and ChannelData-like",
+                                           "end to end (Engine B, TraceRelay.tla): the real client's relayed socket, the real server and memnet peers, both directions, over a datagram and over a stream transport between client and server, "
+                                           "inbound MTU 1600 and 1200, 25 boundary lengths plus random ones up to 9000, single datagrams and bursts of 3-8 that arrive before the application reads; "
+                                           "every arrival must be byte-identical to something sent in that direction for that endpoint, once, truthfully attributed; within the limits it must have arrived when the execution settles"]),
     "C06": dict(title="allocation lifetime, refresh and deletion are exact", level="model_checking",
                 run=core_run(["MC_time"], ["GEN_time", "GEN_users", "GEN_relayA"]),
                 assumptions=BASE_ASSUME),
